@@ -465,8 +465,14 @@ def z_is_not(e):
     return Z.is_not(e) if isinstance(e, Z.ExprRef) else (isinstance(e, F) and e.kind == "not")
 
 
+_TACTIC_CACHE = {}
+
+
 class _Tactic:
-    """The genuine z3 tactic, applied to the skeleton of a table formula."""
+    """The genuine z3 tactic, applied to the skeleton of a table formula.  The result of the
+    k-th application within a run is memoised per skeleton, so that re-executions of the
+    code under test see identical goals (z3 orders literals by AST id, which would make
+    re-executions diverge otherwise)."""
 
     def __init__(self, name, ctx=None):
         self.t = Z.Tactic(name)
@@ -475,7 +481,16 @@ class _Tactic:
     def __call__(self, goal, *a, **kw):
         if isinstance(goal, F):
             goal = goal.skeleton()
-        return self.t(goal, *a, **kw)
+        eng = symex.ENG
+        if eng is None or a or kw:
+            return self.t(goal, *a, **kw)
+        k = eng.notes.get("tactic_calls", 0)
+        eng.notes["tactic_calls"] = k + 1
+        key = (self.name, k, goal.get_id())
+        hit = _TACTIC_CACHE.get(key)
+        if hit is None:
+            hit = _TACTIC_CACHE[key] = (self.t(goal), goal)   # keep `goal` alive: ids stay unique
+        return hit[0]
 
     apply = __call__
 
@@ -616,9 +631,10 @@ class ZOptimize:
 
         def assume():
             def cost(val):
-                if not soft:
-                    return Z.IntVal(0)
-                return Z.Sum([Z.If(val(b), 0, wt) for b, wt, _ in soft])
+                r = _cv(0)
+                for b, wt, _ in soft:
+                    r = r + Z.If(val(b), _cv(0), _cv(wt))
+                return r
             cw = cost(lambda b: tt.t_lookup(b, w))
             cs = [tt.t_lookup(H, w)]
             if CTX.N >= 1 and w.size() > CTX.N:
@@ -628,7 +644,7 @@ class ZOptimize:
                 if hv is False:
                     continue
                 cv = cost(lambda b: _zb(tt.t_bit(b, v)))
-                cs.append(Z.Implies(_zb(hv), cv >= cw))
+                cs.append(Z.Implies(_zb(hv), Z.UGE(cv, cw)))
             return Z.And(*cs)
         eng.add(assume)
         return FModel(w)
@@ -933,10 +949,11 @@ class RC2:
                 if x is False:
                     const += wt
                 elif x is not True:
-                    parts.append(Z.If(x, 0, wt))
-            if not parts:
-                return const
-            return Z.Sum(parts + [Z.IntVal(const)])
+                    parts.append(Z.If(x, _cv(0), _cv(wt)))
+            r = _cv(const)
+            for p_ in parts:
+                r = r + p_
+            return r
 
         combos = []
         anysat = False
@@ -958,7 +975,9 @@ class RC2:
         wv = eng.fresh("w", Z.BitVecSort(max(CTX.N, 1)))
         hsym = {v: eng.fresh("h") for v in free}
         total = sum(wt for _, wt in self.soft)
-        cvar = eng.fresh("c", Z.IntSort())
+        cvar = eng.fresh("c", Z.BitVecSort(COSTW))
+        if total >= 2 ** COSTW:
+            raise Inconclusive("RC2 stand-in: total soft weight %d exceeds the cost width" % total)
 
         def assume():
             cs = []
@@ -967,16 +986,16 @@ class RC2:
             for w in range(W):
                 is_w = wv == Z.BitVecVal(w, wv.size())
                 cs.append(Z.Implies(is_w, Z.And(_zb(hard_val(w, hsym, False)),
-                                                cvar == _zi(cost_val(w, hsym, False)))))
+                                                cvar == cost_val(w, hsym, False))))
             for hv, w, h in combos:          # optimality: no model of the hard part is cheaper
-                cs.append(Z.Implies(_zb(hv), _zi(cost_val(w, h, True)) >= cvar))
+                cs.append(Z.Implies(_zb(hv), Z.UGE(cost_val(w, h, True), cvar)))
             return Z.And(*cs)
 
         eng.add(assume)
         # concretise the cost (the repository compares it with Python ints)
         cost = None
         for k in range(total + 1):
-            if symex.sym_truth(cvar == k):
+            if symex.sym_truth(cvar == _cv(k)):
                 cost = k
                 break
         if cost is None:
@@ -998,6 +1017,13 @@ class RC2:
 
 def _zi(x):
     return Z.IntVal(x) if isinstance(x, int) else x
+
+
+COSTW = 8
+
+
+def _cv(n):
+    return Z.BitVecVal(n, COSTW)
 
 
 # =======================================================================================
